@@ -648,6 +648,14 @@ def gen_stack(rng, tier):
     return prog
 
 
+def gen_full(rng, tier):
+    """The interpreter's real text for a live exception (position-marker lines, folding, suggestions and all)
+    given to ParsedException.from_string: the first half of the property on real output."""
+    prog = gen_ei(rng, tier)
+    prog["kind"] = "full"
+    return prog
+
+
 def gen_sess(rng, tier):
     """Several exceptions in one process through module files that are rewritten (and usually reloaded)
     in between: the source text linecache serves changes over time.  Per step the implementation is
@@ -735,6 +743,8 @@ def generate(rng, tier, n):
             yield gen_sess(rng, tier)
         elif r < 0.90:
             yield gen_stack(rng, tier)
+        elif r < 0.94:
+            yield gen_full(rng, tier)
         else:
             yield gen_ei(rng, tier)
 
@@ -896,6 +906,9 @@ def _capture(exc, tb, step, d, mods):
     obs["exc"] = {"module": et.__module__, "qualname": et.__qualname__, "name": et.__name__, "str": exc_str,
                   "shown": shown[:-1]}
     obs["interp"] = nomark[:-1]
+    assert full.endswith("\n")
+    obs["fulltext"] = full[:-1]
+    obs["parsed_full"] = _parse_obs(full[:-1])[0]
     # ---- later: the file changes again; the ExceptionInfo object is asked once more ----------
     if "after" in step:
         _edit(d, step.get("after"), step, mods)
@@ -970,7 +983,7 @@ def _run_program(case):
     os.makedirs(d)
     if case["kind"] == "stack":
         return _run_stack(case, d)
-    if case["kind"] == "ei":
+    if case["kind"] in ("ei", "full"):
         steps = [{"mode": "load", "modules": case["modules"], "entry": case["entry"], "expect": case["expect"],
                   "full": case.get("full"), "first": "dict"}]
         names = [m for m, _ in case["modules"]]
@@ -998,7 +1011,7 @@ def _run_program(case):
             out.append(_capture(exc, tb, step, d, names))
             del exc, tb
         root = os.path.dirname(d)
-        if case["kind"] == "ei":
+        if case["kind"] in ("ei", "full"):
             out[0]["root"] = root
             return out[0]
         return {"steps": out, "root": root}
@@ -1073,6 +1086,12 @@ def to_coq(case, obs):
         g = obs["groups"]
         term = "CaseRe %s %s %s" % (cN(case["which"]), I.t(case["s"]),
                                     "None" if g is None else "(Some %s)" % clist(I.t(x) for x in g))
+    elif kind == "full":
+        live = clist("mkLive %s %s %s %s" % (I.s(l["file"]), cN(l["lineno"]), I.s(l["name"]), I.s(l["raw"])) for l in obs["live"])
+        e = obs["exc"]
+        exc = "(mkExc %s %s %s %s %s)" % (I.s(e["module"]), I.s(e["qualname"]), I.s(e["name"]),
+                                          "None" if e["str"] is None else "(Some %s)" % I.t(e["str"]), I.t(e["shown"]))
+        term = "CaseFull %s %s %s %s" % (live, exc, I.t(obs["fulltext"]), _res_tb(I, obs["parsed_full"]))
     elif kind == "stack":
         live = clist("mkLive %s %s %s %s" % (I.s(l["file"]), cN(l["lineno"]), I.s(l["name"]), I.s(l["raw"])) for l in obs["live"])
         frames = clist("mkCpObs %s %s %s %s" % (I.s(f["path"]), cN(f["lineno"]), I.s(f["func"]), I.s(f["line"])) for f in obs["frames"])
@@ -1119,6 +1138,11 @@ def corrupt(case, obs):
     if kind == "stack":
         bad["fmt"] = bad["fmt"] + "x"
         return bad
+    if kind == "full":
+        if "err" in bad["parsed_full"]:
+            return None
+        bad["parsed_full"]["type"] += "x"
+        return bad
     if kind == "sess":
         o = bad["steps"][-1]
         if o["live"]:
@@ -1139,6 +1163,8 @@ def nontrivial(case, obs):
         return case["bad"] is None and len(fr) >= 2 and any(not f["src"] for f in fr)
     if case["kind"] == "ei":
         return len(obs["frames"]) >= 3
+    if case["kind"] == "full":
+        return len(obs["live"]) >= 3 and obs["fulltext"] != obs["interp"]      # has marker lines
     if case["kind"] == "stack":
         return len(obs["frames"]) >= 3
     if case["kind"] == "sess":
@@ -1172,6 +1198,9 @@ def distribution(d, case, obs):
         inc("rt_input_type", "bytes" if case.get("bytes") else "str")
     elif kind == "re":
         inc("re_outcome", "%s:%s" % (("frame", "se_frame", "underline", "repeat")[case["which"]], "match" if obs["groups"] is not None else "no"))
+    elif kind == "full":
+        inc("full_marker_lines", str(min(10, obs["fulltext"].count("\n") - obs["interp"].count("\n"))))
+        inc("full_outcome", "parsed" if "err" not in obs["parsed_full"] else obs["parsed_full"]["err"])
     elif kind == "stack":
         inc("stack_frames", str(min(20, len(obs["frames"]))))
     elif kind == "sess":
@@ -1202,6 +1231,8 @@ def distribution(d, case, obs):
 def sample(case, obs):
     if case["kind"] == "re":
         return {"case": case, "groups": obs["groups"]}
+    if case["kind"] == "full":
+        return {"kind": "full", "text": obs["fulltext"].replace(obs["root"], "<tmp>"), "parsed": obs["parsed_full"]}
     if case["kind"] == "stack":
         return {"kind": "stack", "fmt": obs["fmt"].replace(obs["root"], "<tmp>")}
     if case["kind"] == "sess":
